@@ -588,11 +588,47 @@ class Normaliser:
                 self.splice_sync(gj, i, hj)
                 self.log.append((h, bid, "call"))
             changed = True
+        if self.devirtualise_fn_items(b, gj):
+            changed = True
         if self.splice_closure_calls(b, gj):
             changed = True
         if changed:
             b._blocks = None
             b.locals = gj["locals"]
+
+    def devirtualise_fn_items(self, b, gj):
+        """`f(x)` where f is a function item handed in as a value (`helper(raw, TopicName::try_parse)` after the helper was
+        spliced): the call through FnOnce/Fn becomes a direct call of that function"""
+        from mir import Body
+        from flow import BodyInfo
+        f = self.facts
+        tmp = Body(gj, "lib", b.types)
+        tmp.id = b.id
+        info = BodyInfo(tmp, f)
+        did = False
+        for blk in tmp.blocks:
+            t = blk.term
+            if blk.cleanup or t.k != "call" or t.callee is None or t.callee.path not in self.CLOSURE_CALLS or len(t.args) != 2:
+                continue
+            o = info.trace(t.args[0])
+            if o.kind != "const" or o.path or not isinstance(o.data, str) or f.body(o.data) is None:
+                continue
+            fb = f.body(o.data)
+            if fb.kind not in ("Fn", "AssocFn"):
+                continue
+            ta = info.trace(t.args[1])
+            if ta.kind != "agg" or ta.path or info.agg_at(ta.data).j.get("ak") != "tuple":
+                continue
+            ops = info.agg_at(ta.data).j["ops"]
+            if len(ops) != fb.arg_count:
+                continue
+            tj = gj["blocks"][blk.idx]["term"]
+            tj["callee"] = {"path": o.data, "local": True, "args": [], "res": o.data, "res_local": True, "res_kind": "Item", "res_args": [],
+                            "impl_self": fb.impl_self}
+            tj["args"] = copy.deepcopy(ops)
+            tj["devirtualised"] = True
+            did = True
+        return did
 
     # ------------------------------------------------------------------ calls of closures built in the same body
     CLOSURE_CALLS = ("std::ops::FnOnce::call_once", "std::ops::FnMut::call_mut", "std::ops::Fn::call")
